@@ -4,14 +4,14 @@ from vt import chartgen as cg, seqrun
 ID = 'C03'
 RULE = ('random state trees with dense initial transitions (to any strict descendant, multi-level jumps, chains up to '
         'the depth of the tree) and states lacking entry/init clauses; EVERY state of every generated chart is used as '
-        'start state of a fresh plain HsmEventProcessor and the entry/init ground-truth log and rest state are compared '
+        'start state of a fresh plain HsmEventProcessor (every fifth case: of a fresh InstrumentedHsmEventProcessor or HsmWithQueues, instrumented or not, handlers under spy_on or plain closures) and the entry/init ground-truth log and rest state are compared '
         'with the reference model (no exit may run, no state entered twice); every fourth case starts the SAME chart object 2-4 times, '
         'in random states and with events in between (and every seventh case sets the chart\'s state / temp holders to None before start_at, the branch in which start_at creates them), and every one of these start_at calls must do what a first start does. '
         'distinct_nontrivial = distinct '
         '(depth of start state, number of entries, number of inits) tuples')
 CASES = {'quick': 12000, 'thorough': 300000}
 BUDGET = {'quick': 150, 'thorough': 300}
-REQUIRE = {'starts': 5000, 'deep_init_chains': 20, 'deep_starts': 100, 'restarts_of_a_started_chart': 2000, 'starts_with_unset_state_holders': 3000}
+REQUIRE = {'starts': 5000, 'deep_init_chains': 20, 'deep_starts': 100, 'restarts_of_a_started_chart': 2000, 'starts_with_unset_state_holders': 3000, 'starts_on_instrumented_or_queued_hosts': 5000}
 ASSUME = ['generated charts are well-formed (inits target strict descendants)']
 
 
@@ -73,8 +73,17 @@ def run_case(ctx, n):
   if n % 4 == 3:
     ctx.distinct(('restart', spec['n'], n % 97))
     return restart_case(ctx, rng, spec)
+  kw = {}
+  if n % 5 == 1:
+    # the other hosts that share start_at: InstrumentedHsmEventProcessor and HsmWithQueues (instrumented or not), with handlers
+    # under spy_on or plain (generated handlers are closures; start_at of an instrumented host looks at the start state's closure)
+    from miros.hsm import InstrumentedHsmEventProcessor, HsmWithQueues
+    host, hk = rng.choice([(InstrumentedHsmEventProcessor, {}), (HsmWithQueues, {'instrumented': True}), (HsmWithQueues, {'instrumented': False})])
+    kw = dict(host_cls=host, host_kwargs=hk, spied=rng.random() < 0.5)
   for start in range(spec['n']):
-    res = seqrun.run_plain(ctx, rng, spec, start, [], unset=[('state',), ('temp',), ('state', 'temp')][n % 3] if n % 7 == 3 else None)
+    if kw:
+      ctx.count('starts_on_instrumented_or_queued_hosts')
+    res = seqrun.run_plain(ctx, rng, spec, start, [], unset=[('state',), ('temp',), ('state', 'temp')][n % 3] if n % 7 == 3 else None, **kw)
     m = cg.Model(spec)
     exp = m.start(start)
     ne = sum(1 for r in exp if r[0] == 'entry')
